@@ -65,7 +65,7 @@ func mkTagMap(c *canary, p *prng) (tagMap, []encrypt.PointerTag) {
 	nk := 2 + p.intn(4)
 	for i := 0; i < nk; i++ {
 		k := fmt.Sprintf("k%d", i)
-		switch p.intn(4) {
+		switch p.intn(5) {
 		case 0: // public
 			m[k] = c.pub()
 			tags = append(tags, encrypt.PointerTag{Pointer: "/" + k, Classification: encrypt.PublicClassification})
@@ -75,6 +75,14 @@ func mkTagMap(c *canary, p *prng) (tagMap, []encrypt.PointerTag) {
 		case 2:
 			m[k] = c.prot()
 			tags = append(tags, encrypt.PointerTag{Pointer: "/" + k, Classification: encrypt.SecretClassification, Filter: ops[p.intn(4)]})
+		case 3:
+			// a classification that is none of public / sensitive / secret (misspelt, mixed case, empty,
+			// "unknown"): the value is not classified public, so it must not survive
+			m[k] = c.prot()
+			if p.chance(1, 3) { // (rarely: such a tag makes Process fail as a whole)
+				cls := []encrypt.DataClassification{"Secret", "SENSITIVE", "top-secret", "unknown", "", "Public"}[p.intn(6)]
+				tags = append(tags, encrypt.PointerTag{Pointer: "/" + k, Classification: cls, Filter: ops[p.intn(4)]})
+			}
 		default: // untagged key of a Taggable map
 			m[k] = c.prot()
 		}
@@ -225,7 +233,7 @@ func deepShapes(p *prng, n int, st *stats, oracle func(string, ...any)) {
 		kind := ""
 		curTags = nil
 		f.IgnoreTypes = nil
-		switch p.intn(21) {
+		switch p.intn(22) {
 		case 0:
 			l := mkLeaf(c, p)
 			payload, kind = &l, "ptr-struct"
@@ -291,6 +299,25 @@ func deepShapes(p *prng, n int, st *stats, oracle func(string, ...any)) {
 			m, tags := mkTagMap(c, p)
 			curTags = tags
 			payload, kind = []*dTagHolder{{Attrs: m, L: mkLeaf(c, p)}}, "slice-with-taggable-map-field"
+		case 21:
+			// zero payloads of every kind: forwarded unchanged, with their dynamic type
+			switch p.intn(7) {
+			case 0:
+				payload = (*dLeaf)(nil)
+			case 1:
+				payload = map[string]interface{}(nil)
+			case 2:
+				payload = []dLeaf(nil)
+			case 3:
+				payload = dLeaf{}
+			case 4:
+				payload = ""
+			case 5:
+				payload = (*dNest)(nil)
+			default:
+				payload = tagMap(nil)
+			}
+			kind = "zero-payload"
 		default:
 			nst := &dNest{N: 1, MS: map[string]string{"k": c.prot()}}
 			payload, kind = nst, "ptr-nested-sparse"
@@ -418,7 +445,10 @@ func deepShapes(p *prng, n int, st *stats, oracle func(string, ...any)) {
 			once("C10", kind, "shape not preserved")
 		}
 		if reflect.TypeOf(got.Payload) != reflect.TypeOf(payload) {
-			once("C10", kind, "dynamic type changed")
+			once("C10", kind, fmt.Sprintf("dynamic type changed: %T came out as %T", payload, got.Payload))
+		}
+		if kind == "zero-payload" && !reflect.DeepEqual(got.Payload, payload) {
+			once("C10", kind, fmt.Sprintf("a zero payload (%T) was not forwarded unchanged", payload))
 		}
 		st.Distinct++
 	}
